@@ -298,6 +298,28 @@ End Wf.
 Definition wf_doc (d : schema * list (pystr * schema)) : bool :=
   wf4 (snd d) (fst d) && forallb (fun p => wf4 (snd d) (snd p)) (snd d).
 
+(* every "$ref" target occurring anywhere in a schema *)
+Fixpoint schema_refs (s : schema) : list pystr :=
+  match s with
+  | Sch kws => flat_map kw_refs kws
+  end
+with kw_refs (k : kw) : list pystr :=
+  match k with
+  | KProperties ps => flat_map (fun p => schema_refs (snd p)) ps
+  | KPatProps ps => flat_map (fun p => schema_refs (snd p)) ps
+  | KAddPropsS s' | KItems s' | KNot s' | KBadPatProps s' => schema_refs s'
+  | KItemsL ss | KAllOf ss | KAnyOf ss | KOneOf ss | KNotL ss => flat_map schema_refs ss
+  | KRef name => [name]
+  | _ => []
+  end.
+
+(* the "$ref resolves inside the returned definitions" clause on its own (independent of the other
+   well-formedness conditions): every $ref of the top-level schema and of every definition has a target *)
+Definition doc_refs (d : schema * list (pystr * schema)) : list pystr :=
+  schema_refs (fst d) ++ flat_map (fun p => schema_refs (snd p)) (snd d).
+Definition doc_refs_resolve (d : schema * list (pystr * schema)) : bool :=
+  forallb (alist_has (snd d)) (doc_refs d).
+
 (* ------------------------------------------------------------------ dialect translation *)
 
 Fixpoint fix_dialect (s : schema) : schema :=
